@@ -12,6 +12,22 @@ CHECKS = {
             "Exploration: generated spec-valid frames of all 8 MTypes are encoded (binary, base64), compared byte-for-byte with the wire model, decoded again (join-accepts through encrypt/decrypt) and compared; the complete FOptsLen x FPort x FRMPayload-length grid of the four data MTypes is enumerated in both tiers. Field contents are sampled.",
             "Trusted: harness/internal/ref wire model (frames, MAC-command table) written from LoRaWAN 1.0.3/1.1; structural conversions in harness/internal/gen.",
             "DESIGN.md §4 C01"),
+    "C02": ("rapid-generated data frames x keys x versions x counters; differential against an independent B0/B1 + AES-CMAC model; metamorphic single-input perturbations",
+            "Exploration: for generated data frames (both directions, <= 255 bytes) the MIC set by the library is compared with a reference built from crypto/aes (CMAC self-checked on RFC 4493 vectors) and the wire model; validation must accept exactly that value; for 4-10 perturbations per case (every authenticated input and every input the specification excludes) validation of the original MIC must answer exactly whether the reference MIC changed.",
+            "Trusted: ref.DataMIC (B0/B1 per LoRaWAN 1.0.3 §4.4 / 1.1 §4.4), ref.CMAC, the wire model serialisation.",
+            "DESIGN.md §4 C02"),
+    "C03": ("exhaustive lengths 0..255 + rapid-generated parameters and frames; differential against an independent keystream model; involution; outcome contract on untransformable inputs",
+            "Exploration: every payload length 0..255 (FOpts 0..40) x deterministic parameter sets enumerated, plus generated parameters and valid frames through the PHYPayload methods, compared with S_i = AES(K, A_i) computed with crypto/aes; second application must restore the input; frames on which no transform is defined must yield an error.",
+            "Trusted: ref.Keystream / ref.FOptsStream (A_i blocks per LoRaWAN 1.0.3 §4.3.3, 1.1 errata FOpts block as the library documents), crypto/aes.",
+            "DESIGN.md §4 C03"),
+    "C19": ("exhaustive comparison of all 300x100 parity-matrix lines with an independent TS004 matrix_line/prbs23 model; rapid-generated blocks for systematic prefix, parity rows, XOR linearity, GF(2) decoding of random erasure patterns; grids of invalid sizes",
+            "Exploration, complete for the parity matrix (M 1..300 x N 1..100); blocks, erasure patterns and invalid-size grids are sampled/enumerated: the encoder output must be systematic, each parity fragment the XOR of the rows selected by the model line, linear, decodable by an independent Gaussian-elimination decoder whenever the received selection vectors have full rank, and invalid sizes must give errors, never panics.",
+            "Trusted: the re-implementation of the TS004 appendix pseudo code and the GF(2) decoder in harness/c19.",
+            "DESIGN.md §4 C19"),
+    "C20": ("enumerated leap-second grids + rapid-generated instants/durations against a date-based leap-second model; exhaustive airtime grid against an exact-integer Semtech formula; EIRP table checks over all index bytes, table values +-1 ulp and float32 strides",
+            "Exploration, exhaustive over the +-3 s / 1 ms / +-1 ns grids around all 18 leap seconds, the airtime helper domains, all 256 EIRP indices and (thorough) the complete 10.6 M point airtime grid; instants/durations 1980..2100 and float32 powers are sampled. Oracles: leap seconds as calendar dates anchored to published GPS second counts, AN1200.13 in scaled integer arithmetic with a derived truncation tolerance, the TXParamSetupReq table written out.",
+            "Trusted: the 18 leap-second dates (IERS), the Semtech formula as transcribed, the EIRP table of LoRaWAN 1.0.3/1.1.",
+            "DESIGN.md §4 C20"),
     "C11": (
         "exhaustive enumeration of all 2^24 NetIDs + rapid-generated (DevAddr, NetID) near-miss pairs and identifier representations against an arithmetic reference model",
         "Exploration, complete for the NetID dimension: every one of the 2^24 NetIDs is pushed through SetAddrPrefix/IsNetID/NwkID/Type/ID with four DevAddr patterns and compared with an arithmetic model of the addressing rule in both tiers; membership near misses and text/binary/SQL round trips (incl. wrong lengths 0..20) are generated with rapid. The DevAddr dimension and the representation values are sampled, not exhausted.",
